@@ -102,6 +102,9 @@ def chdata_tree(d):
 
 
 def chan_array(d):
+    if d.get('values') is not None:
+        arr = np.array(d['values'], dtype=d['dtype'])
+        return arr, {'values': d['values']}
     ch = {'name': 'x', 'dtype': d['dtype'], 'width': d['width'], 'order': '<', 'layout': 'C', 'cast': None, 'seed': d['seed'], 'rows': d['rows']}
     return datagen.physical_array(ch), ch
 
@@ -269,13 +272,18 @@ def program_trees(program, outs):
                     d = cs['data']
                     ch = {'name': 'x', 'dtype': d['dtype'], 'width': d['width'], 'order': '<', 'layout': 'C',
                           'cast': cs.get('cast') if cs.get('cast') not in (None, 'bad') else None, 'seed': d['seed'], 'rows': d['rows']}
-                    cols.append(datagen.expected_slots(ch))
+                    if d.get('values') is not None:
+                        arr = np.array(d['values'], dtype=d['dtype'])
+                        cols.append(datagen.expected_slots(ch, arr=arr))
+                    else:
+                        cols.append(datagen.expected_slots(ch))
                 if not okf or not cols:
                     wframes.append([idxmap[ci], [], []])
                     continue
                 nrows = min(len(c) for c in cols)
                 rws = [[[c[i][0], U(c[i][1])] for c in cols] for i in range(nrows)]
-                wframes.append([idxmap[ci], rws, []])
+                ix = (s.get('index') or {}).get(ci)
+                wframes.append([idxmap[ci], rws, [] if ix is None else [ix]])
             data = None
             if s.get('data') == 'dict':
                 data = [[[text(k), chdata_tree(v)] for k, v in pending.items()]]
